@@ -38,6 +38,10 @@ func FromStream(stream *glyphdata.Stream) (*type1.Font, error) {
 	}
 
 	r, w := io.Pipe()
+	// type1.Read stops at the first error (and may stop before the end of
+	// the data); closing the read end releases the goroutine below, which
+	// would otherwise stay blocked in w.Write for ever
+	defer r.Close()
 	var t1Font *type1.Font
 	var parseErr error
 
